@@ -5,7 +5,7 @@ from worlds.reqpath import (ReqPathRun, base_plan, RETRY, RETHROW, IGNORE, RETRY
                             DECISION_NAMES)
 
 ID = 'C16'
-TIERS = {'quick': {'runs': 4000, 'budget_s': 55, 'wall_cap': 120, 'block': 60},
+TIERS = {'quick': {'runs': 12000, 'budget_s': 55, 'wall_cap': 120, 'block': 60},
          'thorough': {'runs': 400000, 'budget_s': 840, 'wall_cap': 120, 'block': 60}}
 SHRINK_LISTS = ['requests']
 COVERAGE_RULE = ('one run = real Cluster/Session over 2-4 fake nodes, fixed scripted query plan per statement, recording '
